@@ -440,8 +440,49 @@ def run(repo: Repo) -> Result:
                     a0 = arg
                     if isinstance(a0, ast.Name) and a0.id in f.module.assigns:
                         a0 = f.module.assigns[a0.id]
+                    if isinstance(a0, ast.Name):
+                        # every binding of the local is a string constant (also through tuple
+                        # unpacking) or re-wraps the local itself
+                        vals_ = []
+                        for x in ast.walk(f.node):
+                            if isinstance(x, ast.Assign) and len(x.targets) == 1:
+                                tg_, vl_ = x.targets[0], x.value
+                                if isinstance(tg_, ast.Name) and tg_.id == a0.id:
+                                    vals_.append(vl_)
+                                elif isinstance(tg_, ast.Tuple) and isinstance(vl_, ast.Tuple) and len(tg_.elts) == len(vl_.elts):
+                                    vals_ += [v_ for t_, v_ in zip(tg_.elts, vl_.elts) if isinstance(t_, ast.Name) and t_.id == a0.id]
+                                elif isinstance(tg_, ast.Tuple) and any(isinstance(t_, ast.Name) and t_.id == a0.id for t_ in tg_.elts):
+                                    vals_.append(None)
+                        params_ = {a.arg for a in f.node.args.args + f.node.args.kwonlyargs + f.node.args.posonlyargs}
+                        if vals_ and a0.id not in params_ and all(v_ is not None and ((isinstance(v_, ast.Constant) and isinstance(v_.value, str)) or (isinstance(v_, ast.Call) and isinstance(v_.func, ast.Name) and v_.func.id in MARKUP_CTORS and len(v_.args) == 1 and is_name(v_.args[0], a0.id))) for v_ in vals_):
+                            row = ("constant", "every binding of the local is a string constant")
                     if isinstance(a0, ast.Constant) and isinstance(a0.value, str):
                         row = ("constant", "a string constant holds no render data")
+                if row is None and isinstance(arg, ast.Name) and f.name.startswith("_") and arg.id in f.params() and arg.id not in ("self", "cls"):
+                    # a parameter of a private helper: the construction is judged at every call site
+                    # (the same statement moved out of the functions that have reviewed rows)
+                    from ..astutil import bind_args as _bind_m
+
+                    owners = list(f.cls.methods.values()) if f.cls is not None else list(f.module.functions.values())
+                    if f.cls is not None:
+                        for sub in repo.subclasses(f.cls.qual, strict=True):
+                            owners += list(sub.methods.values())
+                    sites_ok = []
+                    for g in owners:
+                        if g.qual == f.qual:
+                            continue
+                        gl = None
+                        for cc in ast.walk(g.node):
+                            if isinstance(cc, ast.Call) and callee_name(cc) == f.name:
+                                b = _bind_m(cc, f.node) or {}
+                                a_site = b.get(arg.id)
+                                if gl is None:
+                                    gl = local_names(g.node)
+                                sites_ok.append(a_site is not None and f"{g.qual}|{ltext(a_site, gl)}" in REVIEWED_MARKUP)
+                                if sites_ok[-1]:
+                                    used_rows.add(g.qual)
+                    if sites_ok and all(sites_ok):
+                        row = ("parameter-of-private-helper", "every call site passes a value with a reviewed row")
                 if row is None and _escaped_then_constant_sub(repo, f, arg):
                     row = ("escaped-then-constant-sub", "the value is HTML-escaped in place and only a constant replacement is substituted into it")
                 if row is not None:
